@@ -47,7 +47,8 @@ _P = "SqlglotModel.Properties.C09."
 THEOREMS = [_P + n for n in (
     "set_frame", "append_frame", "replace_frame", "hash_touches_only_caches", "eq_touches_only_caches",
     "frame_set", "frame_append", "frame_replace", "frame_pop", "copy_equal_disjoint", "copy_original_untouched",
-    "transform_copy_pure", "generated_copy_defaults_ok", "copy_false_sites_allowed",
+    "transform_copy_pure", "expand_result_disjoint", "expand_nothing_to_do_still_copies", "expand_returns_through_the_copy",
+    "generated_copy_defaults_ok", "copy_false_sites_allowed",
 )]
 
 Expr = exp.Expr
@@ -1110,6 +1111,205 @@ def sweep_mutating(chk: Check, dialects, deadline, rng) -> int:
     return n
 
 
+
+# ------------------------------------------------------------------------------------------ a promised copy is a NEW tree
+# Every copy-documented API that returns a tree must (a) leave its Expression arguments untouched and (b) return a result that
+# shares NO node with them — in particular in the "nothing to do" case of each API, the classic place where a fast path
+# hands the input back (exp.expand with empty / unreferenced sources, replace_tables with an empty mapping, a builder called
+# without arguments, a cast to the type the expression already has, transform with the identity function …).
+_SRC_SQL = "SELECT 1 AS a, 2 AS b, 3 AS c"
+
+
+def _sources(kind, t):
+    tabs = [n.name for n in nodes(t) if isinstance(n, exp.Table) and n.name]
+    if kind == "empty":
+        return {}
+    unref = {"zz_unreferenced": sqlglot.parse_one("SELECT 1 AS x"), "zz_other": "SELECT d FROM raw"}
+    if kind == "unref" or not tabs:
+        return unref
+    if kind == "callable":
+        return {tabs[0]: (lambda: sqlglot.parse_one(_SRC_SQL))}
+    return {tabs[0]: sqlglot.parse_one(_SRC_SQL), **(unref if kind == "ref+unref" else {})}
+
+
+def _result_trees(r, depth=0):
+    """the Expression trees reachable from an API result"""
+    if depth > 3 or r is None:
+        return []
+    if isinstance(r, Expr):
+        return [r]
+    if isinstance(r, (list, tuple, set)):
+        return [x for y in r for x in _result_trees(y, depth + 1)]
+    if isinstance(r, dict):
+        return [x for y in r.values() for x in _result_trees(y, depth + 1)]
+    if type(r).__name__ == "Node" and hasattr(r, "walk"):   # lineage.Node
+        out = []
+        for n in r.walk():
+            out += [x for x in (getattr(n, "expression", None), getattr(n, "source", None)) if isinstance(x, Expr)]
+        return out
+    return []
+
+
+def _fresh_table():
+    from sqlglot.lineage import lineage
+    from sqlglot.optimizer import optimize
+    sch = SCHEMAS["int"]
+
+    def lin(kind):
+        def run(t, o, p):
+            cols = [c for c in (getattr(t, "named_selects", None) or [])][:2]
+            kw = {} if kind == "none" else {"sources": _sources(kind, t)}
+            return [lineage(c, t, schema=sch, **kw) for c in cols]
+        return run
+
+    first = lambda t, cls: next((n for n in nodes(t) if isinstance(n, cls)), None)  # noqa: E731
+    sel = lambda t: t if isinstance(t, exp.Select) else first(t, exp.Select)  # noqa: E731
+    cond = lambda t: (first(t, exp.Where).this if first(t, exp.Where) is not None else first(t, exp.Condition))  # noqa: E731
+    T = {
+        "transform:id": lambda t, o, p: t.transform(lambda n: n),
+        "copy": lambda t, o, p: t.copy(),
+        "maybe_copy": lambda t, o, p: exp.maybe_copy(t),
+        "maybe_parse(copy=True)": lambda t, o, p: exp.maybe_parse(t, copy=True),
+        "optimize": lambda t, o, p: optimize(t, schema=sch),
+        "replace_tables:empty": lambda t, o, p: exp.replace_tables(t, {}),
+        "replace_tables:unref": lambda t, o, p: exp.replace_tables(t, {"zz_unreferenced": "q"}),
+        "replace_tables:ref": lambda t, o, p: exp.replace_tables(t, {n.name: "c.d.e" for n in nodes(t) if isinstance(n, exp.Table) and n.name}),
+        "replace_placeholders:none": lambda t, o, p: exp.replace_placeholders(t),
+        "replace_placeholders:unref": lambda t, o, p: exp.replace_placeholders(t, zz_unused=1),
+        "replace_placeholders:match": lambda t, o, p: exp.replace_placeholders(t, exp.to_identifier("q"), "v", p=1, tbl=exp.to_identifier("foo")),
+        "select.select()": lambda t, o, p: sel(t).select(), "select.where()": lambda t, o, p: sel(t).where(),
+        "select.group_by()": lambda t, o, p: sel(t).group_by(), "select.order_by()": lambda t, o, p: sel(t).order_by(),
+        "select.having()": lambda t, o, p: sel(t).having(), "select.sort_by()": lambda t, o, p: sel(t).sort_by(),
+        "select.distinct(False)": lambda t, o, p: sel(t).distinct(distinct=False), "select.lock(False)": lambda t, o, p: sel(t).lock(update=False),
+        "select.where(None)": lambda t, o, p: sel(t).where(None), "select.select(append=False)": lambda t, o, p: sel(t).select("1 AS one", append=False),
+        "cond.and_()": lambda t, o, p: cond(t).and_(), "cond.or_()": lambda t, o, p: cond(t).or_(),
+        "exp.and_(x)": lambda t, o, p: exp.and_(cond(t)), "exp.or_(x)": lambda t, o, p: exp.or_(cond(t)),
+        "exp.and_(x, None)": lambda t, o, p: exp.and_(cond(t), None), "exp.condition(x)": lambda t, o, p: exp.condition(cond(t)),
+        "exp.paren(x)": lambda t, o, p: exp.paren(cond(t)),
+        "exp.not_(x)": lambda t, o, p: exp.not_(cond(t)),
+        "exp.cast(same type)": lambda t, o, p: exp.cast(p["_cast"], "int"),
+        "exp.to_identifier(ident)": lambda t, o, p: exp.to_identifier(first(t, exp.Identifier)),
+        "exp.to_table(table)": lambda t, o, p: exp.to_table(first(t, exp.Table)),
+        "exp.to_column(col)": lambda t, o, p: exp.to_column(first(t, exp.Column)),
+        "exp.alias_(alias)": lambda t, o, p: exp.alias_(first(t, exp.Alias), first(t, exp.Alias).alias),
+        "exp.subquery": lambda t, o, p: exp.subquery(t, "q"),   # (exp.select(expr) documents "an Expr is used as-is")
+        "exp.func(x)": lambda t, o, p: exp.func("COALESCE", cond(t)), "exp.tuple_(x)": lambda t, o, p: exp.tuple_(cond(t)),
+        "exp.array(x)": lambda t, o, p: exp.array(cond(t)), "exp.case(x)": lambda t, o, p: exp.case(cond(t)),
+    }
+    for kind in ("empty", "unref", "ref", "ref+unref", "callable"):
+        T["expand:" + kind] = (lambda kind: lambda t, o, p: exp.expand(t, _sources(kind, t)))(kind)
+    for kind in ("none", "empty", "unref", "ref", "ref+unref"):
+        T["lineage:" + kind] = lin(kind)
+    return T
+
+
+_FRESH = None
+
+
+def fresh_table():
+    global _FRESH
+    if _FRESH is None:
+        _FRESH = _fresh_table()
+    return _FRESH
+
+
+def evaluate_fresh(case):
+    a = case["args"]
+    fn = fresh_table().get(a["api"])
+    if fn is None:
+        raise c08.UnknownOp(a["api"])
+    try:
+        t = build_tree(case["sql"], case.get("dialect"), case.get("prep") or {})
+    except Exception:  # noqa: BLE001
+        return None
+    p = {}
+    prot = [t]
+    if a["api"] == "exp.cast(same type)":
+        col = next((n for n in nodes(t) if isinstance(n, exp.Column)), None)
+        if col is None:
+            return None
+        p["_cast"] = exp.cast(col.copy(), "int", copy=False)
+        prot = [t, p["_cast"]]
+    before = [fingerprint(x) for x in prot]
+    ids = {id(n) for x in prot for n in nodes(x)}
+    keep = [n for x in prot for n in nodes(x)]
+    res = err = None
+    with MON.protect(prot) as mon:
+        try:
+            res = fn(t, None, p)
+        except c08.UnknownOp:
+            raise
+        except Exception as e:  # noqa: BLE001 — inapplicable (no Select / no condition …) or an error of the call
+            err = type(e).__name__
+    events = list(mon.events)
+    after = [fingerprint(x) for x in prot]
+    field = what = None
+    for i, (b, f) in enumerate(zip(before, after)):
+        d = fp_diff(b, f)
+        if d is not None:
+            field = d
+            what = f"argument {i} changed: first difference in field {d!r}: {b['sql']!r} -> {f['sql']!r}"
+            break
+    if field is None and events:
+        e = events[0]
+        field = f"write:{e['op']}@{e['site'][0] if e['site'] else '?'}"
+        what = f"{e['op']}() on a {e['on']} of the argument from {' <- '.join(e['site'])}"
+    if field is None and res is not None:
+        shared = [n for r in _result_trees(res) for n in nodes(r) if id(n) in ids]
+        if shared:
+            field = "shared-result"
+            what = (f"the result shares {len(shared)} node(s) with the argument (first: {type(shared[0]).__name__}"
+                    f"{', the ROOT itself' if any(shared[0] is x for x in prot) else ''}) although a copy is promised")
+    del keep
+    if field is None:
+        return None
+    return f"call:fresh:{a['api']}|-|{field}", f"{a['api']} ({err or 'returned'}) on {case['sql'][:80]!r}: {what}"
+
+
+FRESH_SQL = [
+    "SELECT a, b + 1 AS c FROM t WHERE a > 0", "SELECT x.a, y.b AS bb FROM x JOIN y ON x.a = y.a WHERE x.c > 1 AND y.c < 5 GROUP BY x.a, y.b",
+    "SELECT a FROM (SELECT a FROM x WHERE b = 1) AS q WHERE a IN (1, 2)", "WITH w AS (SELECT a FROM x) SELECT a AS aa FROM w UNION ALL SELECT b FROM y",
+    "SELECT CAST(a AS INT) AS i, COALESCE(b, 0) AS k FROM x WHERE NOT (a = 1 OR b = 2)", "SELECT :p AS v, a FROM x WHERE a = :q",
+    "SELECT a FROM x", "SELECT 1 AS one",
+]
+
+
+def sweep_fresh(chk: Check, gen, deadline, rng) -> int:
+    import logging
+    logging.getLogger("sqlglot").setLevel(logging.ERROR)
+    n = 0
+    apis = sorted(fresh_table())
+    chk.cov["fresh_result_apis"] = apis
+    sqls = list(FRESH_SQL)
+
+    def one(sql, api, prep):
+        nonlocal n
+        n += 1
+        case = {"call": "fresh", "sql": sql, "dialect": None, "sql2": None, "prep": prep, "args": {"api": api}}
+        chk.count("call:fresh:" + api.split(":")[0])
+        try:
+            res = evaluate_fresh(case)
+        except c08.UnknownOp:
+            return
+        chk.case(("fresh", sql, api, json.dumps(prep, sort_keys=True)), nontrivial=True, sample=case if n % 997 == 1 else None)
+        if res:
+            chk.report_violation(res[0], res[1], case, context={"call": "fresh"})
+
+    for sql in sqls:                      # the fixed inputs: every API on every one of them
+        for api in apis:
+            if time.time() > deadline or len(chk.violations) >= 3:
+                return n
+            one(sql, api, {"prehash": len(sql) % 2 == 0, "annotate": False, "schema": "int"})
+    while time.time() < deadline and len(chk.violations) < 3:   # then generated queries
+        sql = gen.query(rng.choice([0, 1, 1, 2]))
+        prep = {"prehash": rng.random() < 0.3, "annotate": rng.random() < 0.2, "schema": "int"}
+        for api in rng.sample(apis, 8):
+            if time.time() > deadline:
+                break
+            one(sql, api, prep)
+    return n
+
+
 def search(chk: Check, hints: list, budget_s: float) -> None:
     t0 = time.time()
     rng = chk.rng
@@ -1121,22 +1321,23 @@ def search(chk: Check, hints: list, budget_s: float) -> None:
                             "excluded_no_copy_default": sorted(n for n, v in inc.items() if v is None)}
     active = [c for n, c in allc.items() if inc[n] and n != "sql"]
     dialects = c08.all_dialects()
-    n_cases = n_copy = found = n_sub = n_mut = 0
+    n_cases = n_copy = found = n_sub = n_mut = n_fresh = 0
     sc = [("x", c) for c in "abc"] + [("y", c) for c in "abc"]
     MON.install()
     try:
         for h in hints or []:
             try:
-                res = evaluate_subnode(h) if h.get("call") == "subnode" else evaluate_mut(h) if h.get("call") == "mutprint" else evaluate(h)
+                res = evaluate_subnode(h) if h.get("call") == "subnode" else evaluate_mut(h) if h.get("call") == "mutprint" else evaluate_fresh(h) if h.get("call") == "fresh" else evaluate(h)
             except (c08.UnknownOp, KeyError, TypeError):
                 chk.count("hint:skipped")
                 continue
             chk.count("hint:run")
             if res:
                 report(chk, h, res)
-        n_mut = sweep_mutating(chk, dialects, t0 + budget_s * 0.22, rng)
-        n_sub = sweep_subnodes(chk, gen, dialects, t0 + budget_s * 0.4, rng)
-        t_calls = t0 + budget_s * 0.8
+        n_fresh = sweep_fresh(chk, gen, t0 + budget_s * 0.14, rng)
+        n_mut = sweep_mutating(chk, dialects, t0 + budget_s * 0.34, rng)
+        n_sub = sweep_subnodes(chk, gen, dialects, t0 + budget_s * 0.5, rng)
+        t_calls = t0 + budget_s * 0.82
 
         def one(case):
             nonlocal n_cases, found
@@ -1209,7 +1410,7 @@ def search(chk: Check, hints: list, budget_s: float) -> None:
                     chk.report_violation(res[0], res[1] + " (not reproduced by the from-scratch replay)", case, context={"call": "copy-edit"})
     finally:
         MON.uninstall()
-    chk.search_info = {"ran": True, "budget_s": budget_s, "calls": n_cases, "subnode_calls": n_sub, "mutating_print_calls": n_mut, "copy_histories": n_copy, "violating": found,
+    chk.search_info = {"ran": True, "budget_s": budget_s, "calls": n_cases, "subnode_calls": n_sub, "mutating_print_calls": n_mut, "fresh_result_calls": n_fresh, "copy_histories": n_copy, "violating": found,
                        "apis": len(active) + 1, "dialects": len(dialects), "elapsed_s": round(time.time() - t0, 1),
                        "oracle": "fingerprint (links, args, comments, types, meta, sql(), repr()) of every argument tree identical before/after "
                                  "AND no monitored set/append/replace/pop/_set_parent touches a node of an argument tree; diff(): no hash "
@@ -1272,6 +1473,27 @@ def translate(chk: Check) -> str:
     for k, v in facts.items():
         if not v:
             chk.broken.append({"kind": "translator", "what": f"C09 translator: structure changed: {k} no longer recognised"})
+    bld = parse("sqlglot/expressions/builders.py")
+    ex = _fn(bld, None, "expand")
+    ret_sites = []
+    if ex is not None:
+        def own_returns(node):
+            for ch in _ast.iter_child_nodes(node):
+                if isinstance(ch, (_ast.FunctionDef, _ast.AsyncFunctionDef, _ast.Lambda)):
+                    continue
+                if isinstance(ch, _ast.Return):
+                    ret_sites.append(_ast.unparse(ch))
+                own_returns(ch)
+        own_returns(ex)
+    lin = next((c for c in reversed(parse("sqlglot/lineage.py").body)
+                if isinstance(c, _ast.FunctionDef) and c.name == "lineage"), None)   # the last def: earlier ones are @overload stubs
+    lin_ok = False
+    if lin is not None:
+        for n in _ast.walk(lin):
+            if isinstance(n, _ast.Call) and isinstance(n.func, _ast.Name) and n.func.id == "maybe_parse":
+                if n.args and _ast.unparse(n.args[0]) == "sql":
+                    lin_ok = any(kw.arg == "copy" and _ast.unparse(kw.value) == "copy" for kw in n.keywords)
+    chk.cov["expand_return_sites"] = ret_sites
     sites = copy_false_sites()
     mcls = mutating_classes(harvest_mutating())
     chk.cov["copy_false_call_sites"] = sites
@@ -1285,6 +1507,10 @@ def translate(chk: Check) -> str:
     lines.append("/-- every call of `.sql(…)` / `.generate(…)` inside sqlglot that does not pass the default `copy=True` "
                  "(file:function:callee:value) -/")
     lines.append("def copyFalseSites : List String := " + c08._lean_list(c08._lean_str(x) for x in sites))
+    lines.append("/-- the `return` statements of `exp.expand` itself (not of the nested `_expand`) -/")
+    lines.append("def expandReturnSites : List String := " + c08._lean_list(c08._lean_str(x) for x in ret_sites))
+    lines.append("/-- `lineage` calls `maybe_parse(sql, copy=copy, …)` -/")
+    lines.append(f"def lineageCopiesInput : Bool := {'true' if lin_ok else 'false'}")
     lines.append("end SqlglotModel.Generated.C09")
     return "\n".join(lines) + "\n"
 
@@ -1408,7 +1634,7 @@ def replay(path: str) -> int:
         return 1
     MON.install()
     try:
-        res = evaluate_subnode(case) if case["call"] == "subnode" else evaluate_mut(case) if case["call"] == "mutprint" else evaluate(case)
+        res = evaluate_subnode(case) if case["call"] == "subnode" else evaluate_mut(case) if case["call"] == "mutprint" else evaluate_fresh(case) if case["call"] == "fresh" else evaluate(case)
     finally:
         MON.uninstall()
     print("replay:", f"VIOLATES [{res[0]}]: {res[1]}" if res else "holds")
